@@ -416,8 +416,21 @@ fn tamper_inner(u: &mut Unstructured, kind: usize, signed: &[u8], env: &Env) -> 
                 }
                 7 => {
                     let mut rr = sp.rr.clone();
-                    rr.alg = if flag(u) { vec![b"hmac-md5".to_vec(), b"sig-alg".to_vec(), b"reg".to_vec(), b"int".to_vec()] } else { vec![b"gss-tsig".to_vec()] };
-                    Some((rebuild(&signed[..start], &rr), ex(vec![O::BadKey], "unknown-algorithm", true)))
+                    let valid = sp.rr.alg[0].clone();
+                    let other_valid = Alg::ALL[(Alg::ALL.iter().position(|a| *a == alg)? + 1 + pick(u, 3)) % 4].text().as_bytes().to_vec();
+                    let (a, label): (Labels, &'static str) = match pick(u, 7) {
+                        0 => (vec![b"hmac-md5".to_vec(), b"sig-alg".to_vec(), b"reg".to_vec(), b"int".to_vec()], "unknown-algorithm"),
+                        1 => (vec![b"gss-tsig".to_vec()], "unknown-algorithm"),
+                        // the key's own algorithm label followed by more labels: a different name
+                        2 => (vec![valid, b"sig-alg".to_vec(), b"reg".to_vec(), b"int".to_vec()], "algorithm-name-with-extra-labels"),
+                        3 => (vec![valid, b"x".to_vec()], "algorithm-name-with-extra-labels"),
+                        4 => (vec![other_valid, b"sig-alg".to_vec(), b"reg".to_vec(), b"int".to_vec()], "algorithm-name-with-extra-labels"),
+                        // a label that only starts with / ends with a valid name
+                        5 => (vec![[&valid[..], b"x"].concat()], "algorithm-label-with-valid-prefix"),
+                        _ => (vec![b"x".to_vec(), valid], "algorithm-name-with-extra-labels"),
+                    };
+                    rr.alg = a;
+                    Some((rebuild(&signed[..start], &rr), ex(vec![O::BadKey], label, true)))
                 }
                 8 => {
                     // a record added to the signed content
@@ -628,6 +641,14 @@ pub fn run_tamper(data: &[u8], ctx: &mut Ctx) -> CaseResult {
             if got == O::Accept {
                 ctx.class("tampered-but-legitimately-accepted");
                 check_restored("client-answer", m.as_slice(), &pre_of_tampered)?;
+            } else {
+                // "you can drop it and try with the next answer. The
+                // transaction will remain valid."
+                let mut gm = Message::from_octets(signed_of_tampered.clone()).unwrap();
+                let g = o_client(&c.answer(&mut gm, t48(t)));
+                vensure!(g == O::Accept, format!("client-answer:genuine-answer-after-rejected-message-{:?}-expected-Accept", g), "after {}", detail(got));
+                check_restored("client-answer", gm.as_slice(), &pre_of_tampered)?;
+                ctx.class("genuine-answer-after-rejected-answer-verified");
             }
         }
         Side::SeqFirst | Side::SeqSub => {
@@ -638,6 +659,28 @@ pub fn run_tamper(data: &[u8], ctx: &mut Ctx) -> CaseResult {
             let visible = ok && tsigs.iter().any(|t| t.0 == 3 && t.2);
             let hidden_ok = side == Side::SeqSub && exp.allowed.contains(&O::SrvUnsigned) && !visible;
             vensure!(exp.allowed.contains(&got) || (got == O::Accept && hidden_ok), format!("client-sequence:{}:{:?}{}", exp.label, got, if exact { format!("-expected-{:?}", exp.allowed[0]) } else { String::new() }), "{}", detail(got));
+            if side == Side::SeqFirst && got != O::Accept {
+                // A rejected first message does not open the sequence: an
+                // unsigned message still is not acceptable (RFC 8945 §5.3.1,
+                // the first message MUST be signed) ...
+                for _ in 0..2 {
+                    let mut um = Message::from_octets(tiny_message(get_id(&req), 0x8400, 3, 1)).unwrap();
+                    let g = o_client(&c.answer(&mut um, t48(t)));
+                    vensure!(g == O::SrvUnsigned, format!("client-sequence:unsigned-message-after-rejected-first-{:?}-expected-SrvUnsigned", g), "after {}", detail(got));
+                }
+                ctx.class("unsigned-after-rejected-first-still-rejected");
+                // ... and when the rejection happened before any digest work
+                // (no TSIG, format error in the record, other key), the
+                // genuine first answer still verifies.
+                let before_digest = matches!(got, O::SrvUnsigned | O::BadKey) || (got == O::FormErr && !matches!(exp.label, "tsig-mac-size-flip" | "mac-longer-than-hash-output" | "mac-shorter-than-rfc-minimum" | "other-algorithm-of-same-name"));
+                if before_digest {
+                    let mut gm = Message::from_octets(signed_of_tampered.clone()).unwrap();
+                    let g = o_client(&c.answer(&mut gm, t48(t)));
+                    vensure!(g == O::Accept, format!("client-sequence:genuine-first-answer-after-rejected-message-{:?}-expected-Accept", g), "after {}", detail(got));
+                    check_restored("client-sequence", gm.as_slice(), &pre_of_tampered)?;
+                    ctx.class("genuine-first-after-rejected-first-verified");
+                }
+            }
             if got == O::Accept {
                 if !exp.allowed.contains(&O::Accept) {
                     // taken as an unsigned message of the sequence: the next signed message exposes it
